@@ -8,7 +8,7 @@ from .c01 import reply_ok
 
 ID = "C16"
 BUDGET = {"quick": 45, "thorough": 700}
-MAX_RUNS = {"quick": 1200, "thorough": 200000}
+MAX_RUNS = {"quick": 5000, "thorough": 200000}
 TECHNIQUE = "deterministic simulation with fault injection: mixed connection outcomes, log rotation and API polls at seeded instants; history/log/live compared with the harness' ground truth"
 RULE = ("plans: 3-40 connections mixing successful tunnels (known payload sizes, early data), denied, upstream-refused, aborted mid-handshake, aborted mid-transfer, "
         "TLS handshake failures, bad requests and UDP associations; historySize in {0,1,3,100}; POST /logrotate and SIGUSR1 at seeded instants; /live polled at seeded "
